@@ -3,6 +3,7 @@ From SJ Require Import Base.Bytes Base.Utf8 Base.FloatB Model.Read Model.Value M
   Spec.Syntax Spec.Denote Spec.Layout
   Proofs.SerBase Proofs.SerHint Proofs.SerRender Proofs.SerValue Proofs.SerWriter Proofs.SerMain.
 From SJ Require Import Proofs.SerFinal.
+From SJ Require Import Model.FmtAst Gen.FmtTables Proofs.SerFmt.
 
 (* compact output of any well-formed call tree: exactly one well-formed JSON text, no insignificant whitespace,
    denoting the data-model image *)
@@ -84,3 +85,16 @@ Print Assumptions C03_display.
 (* the hypothesis about ryu is satisfiable *)
 Example C03_ryu_json_satisfiable : ryu_json (fun _ => [48; 46; 49]) (fun _ => [49; 101; 49; 54]).
 Proof. exact ryu_json_instance. Qed.
+
+(* the formatter functions of the model are the Formatter method bodies of src/ser.rs as TRANSLATED ON THIS RUN
+   (Gen/FmtTables.v, tools/translate_fmt.py): trait defaults = CompactFormatter, and PrettyFormatter's overrides *)
+Theorem C03_formatter_is_source : forall F first st,
+  begin_array F st = run_method m_begin_array F first st /\ end_array F st = run_method m_end_array F first st /\
+  begin_array_value F first st = run_method m_begin_array_value F first st /\ end_array_value F st = run_method m_end_array_value F first st /\
+  begin_object F st = run_method m_begin_object F first st /\ end_object F st = run_method m_end_object F first st /\
+  begin_object_key F first st = run_method m_begin_object_key F first st /\ end_object_key F st = run_method m_end_object_key F first st /\
+  begin_object_value F st = run_method m_begin_object_value F first st /\ end_object_value F st = run_method m_end_object_value F first st /\
+  (fst write_null, st) = run_method m_write_null F first st /\ (fst begin_string, st) = run_method m_begin_string F first st /\
+  (fst end_string, st) = run_method m_end_string F first st.
+Proof. exact formatter_model_is_translated_source. Qed.
+Print Assumptions C03_formatter_is_source.
